@@ -21,6 +21,9 @@ def run(ctx: Ctx, chk) -> None:
     from . import c17 as _c17
 
     chk.run_rule(lambda c, k: _c17.resync1(c, k, "RESYNC-1"), ctx)
+    from .mmtemplates import template1
+
+    chk.run_rule(lambda c, k: template1(c, k, ["aiomysensors.model.message.MessageSchema"]), ctx)
 
 
 def thorough(ctx: Ctx, chk) -> None:
